@@ -96,6 +96,7 @@ def install():
     """Called by a shard that runs in mode K, after the tree under test was put on the path."""
     import importlib
     logging.raiseExceptions = False
+    logging.disable(logging.NOTSET)          # (the usual harness process switches logging off altogether - vlib/srcroot.py)
     root = logging.getLogger()
     root.setLevel(logging.DEBUG)
     h = _Render()
